@@ -19,6 +19,7 @@
 #include <gmssl/sm2.h>
 #include <gmssl/digest.h>
 #include <gmssl/error.h>
+#include <gmssl/verif.h>
 #include <gmssl/x509.h>
 #include <gmssl/x509_alg.h>
 #include <gmssl/x509_ext.h>
@@ -1173,7 +1174,17 @@ int cms_signed_data_verify_from_der(
 	sm3_update(&sm3_ctx, content_info_header, content_info_header_len);
 	sm3_update(&sm3_ctx, *content, *content_len);
 
-	while (signer_infos_len) {
+	while (signer_infos_len)
+	VERIF_LOOP_ASSIGNS(signer_infos, signer_infos_len, verif_cms_vfy_calls, verif_cms_vfy_bad, verif_cms_vfy_ctx, verif_cms_vfy_certs)
+	VERIF_LOOP_INVARIANT(signer_infos_len <= VERIF_LOOP_ENTRY(signer_infos_len) && verif_cms_vfy_bad == VERIF_LOOP_ENTRY(verif_cms_vfy_bad))
+	VERIF_LOOP_INVARIANT(signer_infos_len == 0 || (VERIF_SAME_OBJECT(signer_infos, VERIF_LOOP_ENTRY(signer_infos))
+		&& VERIF_OFFSET(signer_infos) + signer_infos_len == VERIF_OFFSET(VERIF_LOOP_ENTRY(signer_infos)) + VERIF_LOOP_ENTRY(signer_infos_len)))
+	/* every SignerInfo consumed so far was verified (against the message's certificates): at least one once the window has shrunk */
+	VERIF_LOOP_INVARIANT(verif_cms_vfy_calls - VERIF_LOOP_ENTRY(verif_cms_vfy_calls) <= VERIF_LOOP_ENTRY(signer_infos_len) - signer_infos_len)
+	VERIF_LOOP_INVARIANT(signer_infos_len == VERIF_LOOP_ENTRY(signer_infos_len)
+		|| (verif_cms_vfy_calls - VERIF_LOOP_ENTRY(verif_cms_vfy_calls) >= 1 && verif_cms_vfy_certs == (size_t)*certs))
+	VERIF_LOOP_DECREASES(signer_infos_len)
+	{
 		const uint8_t *cert;
 		size_t certlen;
 		const uint8_t *issuer;
